@@ -63,6 +63,14 @@ GraphOf(e) ==
         [incs |-> [i \in 1..Len(e.files[f].incs) |-> e.files[f].incs[i].to],
          once |-> e.files[f].once]]
 
+\* a file may leave out some of its markers (file f's record lists the muted
+\* indices i of Mark(f, i)): then an #include can stand directly next to
+\* another one, and a file can be empty; what is heard of the expansion is
+\* the declared expansion without the muted markers
+Muted(e, m) == LET f == m \div 16 i == m % 16 IN
+               f \in 1..NFilesOf(e) /\ \E k \in 1..Len(e.files[f].mute) : e.files[f].mute[k] = i
+Audible(e, out) == SelectSeq(out, LAMBDA m : ~Muted(e, m))
+
 \* the generator's promise: file names are distinct normal forms and every
 \* written spelling names the file it is meant to name
 WellFormed(e) ==
@@ -93,7 +101,7 @@ TExpand ==
              x == Expand(G, E.root) IN
          /\ Verdict("missed-cycle" \o RootSpelling, E.ok => x.ok)
          /\ Verdict("spurious-error" \o RootSpelling, x.ok => E.ok)
-         /\ Verdict("markers" \o RootSpelling, (E.ok /\ x.ok) => E.markers = x.out)
+         /\ Verdict("markers" \o RootSpelling, (E.ok /\ x.ok) => E.markers = Audible(E, x.out))
 
 \* ---- incrange -------------------------------------------------------------
 Shape == IF E.wide THEN ":wide-number" ELSE IF Len(E.units) = 0 THEN ":empty-file" ELSE ""
